@@ -38,6 +38,7 @@ var checks = map[string]func(prop, tier string) int{
 	"C17": optchk.Main,
 	"C18": histchk.Main,
 	"C19": walkchk.Main,
+	"C20": livechk.MainC20,
 	"C11": ansichk.Main,
 }
 
